@@ -10,7 +10,7 @@ from collections import Counter
 
 import petl
 
-from petlmon import gen, util
+from petlmon import gen, probes, util
 
 ID = 'C10'
 LEVEL = 'exploration'
@@ -21,7 +21,7 @@ RULE = ('cases = (table, key, count field, conflicts arguments, presorted, buffe
         'that occurs once and a key that occurs more than once. Distinct = SHA-1 of the case.')
 ASSUMPTIONS = ['rectangular tables with hashable cells (property domain)', 'key equality is Python == on key tuples']
 REQUIRED = ['rows=0', 'rows=1', 'run>=3-at-start', 'run>=3-in-middle', 'run>=3-at-end', 'key-none', 'key-compound', 'key-index',
-            'count-column', 'conflict-group', 'agreeing-duplicate-group', 'none-key-duplicated', 'presorted', 'input-is-a-petl-view', 'row-containers:mixed', 'row-containers:tuples', 'buffersize-chunked', 'later-pass-after-edit(cache=False)']
+            'count-column', 'conflict-group', 'agreeing-duplicate-group', 'none-key-duplicated', 'presorted', 'input-is-a-petl-view', 'row-containers:mixed', 'row-containers:tuples', 'buffersize-chunked', 'later-pass-after-edit(cache=False)', 'pass-after-a-failed-pass', 'later-pass-after-columns-rearranged(cache=False)']
 CELLS = [None, 1, 1.0, True, 2, 'a', b'a', 'b', (1, 2), gen.D(2020, 1, 1), 0, '']
 
 
@@ -214,6 +214,51 @@ def judge(case, ctx):
             if strict_ms(d2[1:]) != strict_ms(e_d) or strict_ms(u2[1:]) != strict_ms(e_u):
                 out.append({'kind': 'later-pass-with-cache-off-does-not-partition-the-current-rows', 'expected-duplicates': e_d, 'observed-duplicates': d2[1:],
                             'expected-unique': e_u, 'observed-unique': u2[1:]})
+    # ---- a pass that fails at the last row, then another pass over the same views: the partition of the whole table
+    if len(rows) >= 2 and key is not None and not case['presorted'] and not wrapped and (len(rows) + len(str(key))) % 3 == 1:
+        fkw = dict(kw, buffersize=1)
+        fdup = petl.duplicates(probes.FailingSource(copy.deepcopy(table), fail_at=len(rows), only_pass=1), key, **fkw)
+        funi = petl.unique(probes.FailingSource(copy.deepcopy(table), fail_at=len(rows), only_pass=1), key, **fkw)
+        fdis = petl.distinct(probes.FailingSource(copy.deepcopy(table), fail_at=len(rows), only_pass=1), key, count='n', **fkw)
+        for v_ in (fdup, funi, fdis):
+            try:
+                for _ in iter(v_):
+                    pass
+            except probes.InjectedFault:
+                ctx.seen('pass-after-a-failed-pass')
+        d3, u3, c3 = util.attempt_rows(lambda: fdup), util.attempt_rows(lambda: funi), util.attempt_rows(lambda: fdis)
+        if any(isinstance(x, util.Raised) for x in (d3, u3, c3)):
+            out.append({'kind': 'exception', 'fn': 'pass after a failed pass', 'detail': repr([x for x in (d3, u3, c3) if isinstance(x, util.Raised)][0])})
+        elif strict_ms(d3[1:]) != strict_ms(exp_dup) or strict_ms(u3[1:]) != strict_ms(exp_uni) or sum(r[-1] for r in c3[1:]) != n:
+            out.append({'kind': 'pass-after-a-failed-pass-does-not-partition-the-table', 'expected-duplicates': exp_dup, 'observed-duplicates': d3[1:],
+                        'expected-unique': exp_uni, 'observed-unique': u3[1:], 'distinct-counts': [r[-1] for r in c3[1:]]})
+    # ---- the source's columns are re-arranged between two passes of a cache=False view whose key is given by name
+    if len(hdr) >= 2 and isinstance(key, (str, tuple)) and all(isinstance(k_, str) for k_ in ((key,) if isinstance(key, str) else key)) \
+            and not case['presorted'] and not wrapped and len(set(hdr)) == len(hdr) and (len(rows) + len(str(key))) % 3 == 2:
+        live = copy.deepcopy(table)
+        vdis = petl.distinct(live, key, count='n', cache=False)
+        vdup = petl.duplicates(live, key, cache=False)
+        util.attempt_rows(lambda: vdis)
+        util.attempt_rows(lambda: vdup)
+        for i_ in range(len(live)):
+            live[i_] = list(reversed(live[i_]))           # new row objects: header and rows with the fields in reverse order
+        hdr2 = live[0]
+        kidx2 = gen.resolve_key(hdr2, key)
+        rows2 = [tuple(r) for r in live[1:]]
+        keys2 = [tuple(r[i] for i in kidx2) for r in rows2]
+        mult2 = Counter(keys2)
+        first2 = {}
+        for r, k in zip(rows2, keys2):
+            first2.setdefault(k, r)
+        exp_c2 = [tuple(hdr2) + ('n',)] + [tuple(first2[k]) + (mult2[k],) for k in sorted(mult2, key=util.model_key)]
+        exp_d2 = [r for r, k in zip(rows2, keys2) if mult2[k] > 1]
+        c2_, d2_ = util.attempt_rows(lambda: vdis), util.attempt_rows(lambda: vdup)
+        ctx.seen('later-pass-after-columns-rearranged(cache=False)')
+        if isinstance(c2_, util.Raised) or isinstance(d2_, util.Raised):
+            out.append({'kind': 'exception', 'fn': 'pass after the columns were re-arranged', 'detail': repr(c2_ if isinstance(c2_, util.Raised) else d2_)})
+        elif util.crows(c2_) != util.crows(exp_c2) or strict_ms(d2_[1:]) != strict_ms(exp_d2):
+            out.append({'kind': 'later-pass-with-cache-off-does-not-follow-the-current-header', 'expected-distinct': exp_c2, 'observed-distinct': c2_,
+                        'expected-duplicates': exp_d2, 'observed-duplicates': d2_[1:]})
     # ---- distinct
     first = {}
     for r, k in zip(rows, keys):
